@@ -1,7 +1,7 @@
 (* Ops.v — the operation vocabulary shared by the faithful model (Impl), the
    abstract specification (Spec), the Go harness and the OCaml driver, and the
    dispatcher that runs one operation on the faithful model.  No proofs here. *)
-From Redka Require Import Base Db Glob ImplKey ImplString.
+From Redka Require Import Base Db Glob ImplKey ImplString ImplList ImplSet ImplHash ImplZSet.
 
 (* builder calls of rstring.SetCmd, in the order the caller made them *)
 Inductive setcall :=
@@ -47,7 +47,67 @@ Inductive op :=
 | SSet (key : bytes) (v : value)
 | SSetExpires (key : bytes) (v : value) (ttl : Z)
 | SSetMany (items : list (bytes * value))
-| SSetWith (key : bytes) (v : value) (calls : list setcall).
+| SSetWith (key : bytes) (v : value) (calls : list setcall)
+(* rlist *)
+| LDelete (key : bytes) (v : value)
+| LDeleteBack (key : bytes) (v : value) (count : Z)
+| LDeleteFront (key : bytes) (v : value) (count : Z)
+| LGet (key : bytes) (idx : Z)
+| LInsertAfter (key : bytes) (pivot elem : value)
+| LInsertBefore (key : bytes) (pivot elem : value)
+| LLen (key : bytes)
+| LPopBack (key : bytes)
+| LPopBackPushFront (src dest : bytes)
+| LPopFront (key : bytes)
+| LPushBack (key : bytes) (v : value)
+| LPushFront (key : bytes) (v : value)
+| LRange (key : bytes) (start stop : Z)
+| LSet (key : bytes) (idx : Z) (v : value)
+| LTrim (key : bytes) (start stop : Z)
+(* rset *)
+| EAdd (key : bytes) (vs : list value)
+| EDelete (key : bytes) (vs : list value)
+| EAlg (a : setalg) (keys : list bytes)                 (* Union / Inter / Diff *)
+| EStore (a : setalg) (dest : bytes) (keys : list bytes)
+| EExists (key : bytes) (v : value)
+| EItems (key : bytes)
+| ELen (key : bytes)
+| EMove (src dest : bytes) (v : value)
+| EPop (key : bytes) (choice : option bytes)
+| ERandom (key : bytes) (choice : option bytes)
+| EScan (key : bytes) (cursor : Z) (pat : bytes) (count : Z)
+(* rhash *)
+| HDelete (key : bytes) (fields : list bytes)
+| HExists (key field : bytes)
+| HFields (key : bytes)
+| HGet (key field : bytes)
+| HGetMany (key : bytes) (fields : list bytes)
+| HIncr (key field : bytes) (delta : Z)
+| HIncrFloat (key field : bytes) (delta : float)
+             (parsed : list (bytes * option float)) (sumtext : bytes)
+| HItems (key : bytes)
+| HLen (key : bytes)
+| HScan (key : bytes) (cursor : Z) (pat : bytes) (count : Z)
+| HSet (key field : bytes) (v : value)
+| HSetMany (key : bytes) (items : list (bytes * value))
+| HSetNX (key field : bytes) (v : value)
+| HValues (key : bytes)
+(* rzset *)
+| ZAdd (key : bytes) (v : value) (score : float)
+| ZAddMany (key : bytes) (items : list (value * float))
+| ZCount (key : bytes) (lo hi : float)
+| ZDelete (key : bytes) (vs : list value)
+| ZDeleteRank (key : bytes) (start stop : Z)
+| ZDeleteScore (key : bytes) (lo hi : float)
+| ZGetRank (key : bytes) (v : value) (desc : bool)
+| ZGetScore (key : bytes) (v : value)
+| ZIncr (key : bytes) (v : value) (delta : float)
+| ZAlg (inter : bool) (g : zagg) (keys : list bytes)
+| ZStore (inter : bool) (g : zagg) (dest : bytes) (keys : list bytes)
+| ZLen (key : bytes)
+| ZRangeRank (key : bytes) (start stop : Z) (desc : bool)
+| ZRangeScore (key : bytes) (lo hi : float) (desc : bool) (offset count : Z)
+| ZScan (key : bytes) (cursor : Z) (pat : bytes) (count : Z).
 
 (* ---------- helpers to turn M results into [out] ---------- *)
 
@@ -70,6 +130,14 @@ Definition wrapped (o : op) : bool :=
   | KRename _ _ | KRenameNX _ _ => true
   | SIncr _ _ | SIncrFloat _ _ _ _ | SSet _ _ | SSetExpires _ _ _
   | SSetMany _ | SSetWith _ _ _ => true
+  | LDelete _ _ | LDeleteBack _ _ _ | LDeleteFront _ _ _ | LInsertAfter _ _ _
+  | LInsertBefore _ _ _ | LPopBack _ | LPopBackPushFront _ _ | LPopFront _
+  | LPushBack _ _ | LPushFront _ _ | LSet _ _ _ | LTrim _ _ _ => true
+  | EAdd _ _ | EDelete _ _ | EStore _ _ _ | EMove _ _ _ | EPop _ _ => true
+  | HDelete _ _ | HIncr _ _ _ | HIncrFloat _ _ _ _ _ | HSet _ _ _ | HSetMany _ _
+  | HSetNX _ _ _ => true
+  | ZAdd _ _ _ | ZAddMany _ _ | ZDelete _ _ | ZDeleteRank _ _ _ | ZDeleteScore _ _ _
+  | ZIncr _ _ _ | ZStore _ _ _ _ => true
   | _ => false
   end.
 
@@ -78,6 +146,12 @@ Definition is_read (o : op) : bool :=
   match o with
   | KCount _ | KExists _ | KGet _ | KKeys _ | KLen | KRandom _ | KScan _ _ _ _
   | SGet _ | SGetMany _ => true
+  | LGet _ _ | LLen _ | LRange _ _ _ => true
+  | EAlg _ _ | EExists _ _ | EItems _ | ELen _ | ERandom _ _ | EScan _ _ _ _ => true
+  | HExists _ _ | HFields _ | HGet _ _ | HGetMany _ _ | HItems _ | HLen _
+  | HScan _ _ _ _ | HValues _ => true
+  | ZCount _ _ _ | ZGetRank _ _ _ | ZGetScore _ _ | ZAlg _ _ _ | ZLen _
+  | ZRangeRank _ _ _ _ | ZRangeScore _ _ _ _ _ _ | ZScan _ _ _ _ => true
   | _ => false
   end.
 
@@ -112,6 +186,68 @@ Definition exec_tx (in_tx : bool) (now : Z) (o : op) : db -> db * out :=
   | SSetExpires k v ttl => run (str_set_expires now k v ttl) unit_rv
   | SSetMany items => run (str_set_many now items) unit_rv
   | SSetWith k v calls => str_set_with now k v (setopts_of calls)
+  | LDelete k v => run (list_delete now k v) VI
+  | LDeleteBack k v n => run (list_delete_n now k v n true) VI
+  | LDeleteFront k v n => run (list_delete_n now k v n false) VI
+  | LGet k i => run (list_get now k i) VS
+  | LInsertAfter k p e => list_insert now k p e true
+  | LInsertBefore k p e => list_insert now k p e false
+  | LLen k => run (list_len now k) VI
+  | LPopBack k => run (list_pop now k true) VS
+  | LPopBackPushFront s dst => list_pop_push now s dst
+  | LPopFront k => run (list_pop now k false) VS
+  | LPushBack k v => run (list_push now k v false) VI
+  | LPushFront k v => run (list_push now k v true) VI
+  | LRange k a b => run (list_range now k a b) (fun l => VL (map VS l))
+  | LSet k i v => run (list_set now k i v) unit_rv
+  | LTrim k a b => run (list_trim now k a b) VI
+  | EAdd k vs => run (set_add now k vs) VI
+  | EDelete k vs => run (set_delete now k vs) VI
+  | EAlg a ks => run (set_alg a now ks) (fun l => VU (map VS l))
+  | EStore a dst ks => run (set_store a now dst ks) VI
+  | EExists k v => run (set_exists now k v) VB
+  | EItems k => run (set_items now k) (fun l => VU (map VS l))
+  | ELen k => run (set_len now k) VI
+  | EMove s dst v => run (set_move now s dst v) unit_rv
+  | EPop k c => run (set_pop now k c) VS
+  | ERandom k c => run (set_random now k c) VS
+  | EScan k c p n => run (set_scan now k c p n) (fun r => VL [VI (fst r); VL (map VS (snd r))])
+  | HDelete k fs => run (hash_delete now k fs) VI
+  | HExists k f => run (hash_exists now k f) VB
+  | HFields k => run (hash_fields now k) (fun l => VU (map VS l))
+  | HGet k f => run (hash_get now k f) VS
+  | HGetMany k fs => run (hash_get_many now k fs)
+                         (fun l => VU (map (fun fv => VL [VS (fst fv); VS (snd fv)]) l))
+  | HIncr k f dl => run (hash_incr now k f dl) VI
+  | HIncrFloat k f dl parsed sumtext =>
+      run (hash_incr_float now k f dl
+             (fun t => match opt_lookup parsed t with Some r => r | None => None end)
+             (fun _ => sumtext)) VF
+  | HItems k => run (hash_items now k)
+                    (fun l => VU (map (fun fv => VL [VS (fst fv); VS (snd fv)]) l))
+  | HLen k => run (hash_len now k) VI
+  | HScan k c p n => run (hash_scan now k c p n)
+                         (fun r => VL [VI (fst r); VL (map (fun fv => VL [VS (fst fv); VS (snd fv)]) (snd r))])
+  | HSet k f v => run (hash_set now k f v) VB
+  | HSetMany k items => run (hash_set_many now k items) VI
+  | HSetNX k f v => run (hash_set_nx now k f v) VB
+  | HValues k => run (hash_values now k) (fun l => VU (map VS l))
+  | ZAdd k v sc => run (zset_add now k v sc) VB
+  | ZAddMany k items => run (zset_add_many now k items) VI
+  | ZCount k lo hi => run (zset_count now k lo hi) VI
+  | ZDelete k vs => run (zset_delete now k vs) VI
+  | ZDeleteRank k a b => run (zset_delete_rank now k a b) VI
+  | ZDeleteScore k lo hi => run (zset_delete_score now k lo hi) VI
+  | ZGetRank k v desc => run (zset_get_rank now k v desc) (fun p => VL [VI (fst p); VF (snd p)])
+  | ZGetScore k v => run (zset_get_score now k v) VF
+  | ZIncr k v dl => run (zset_incr now k v dl) VF
+  | ZAlg inter g ks => run (zset_alg inter g now ks) (fun l => VL (map item_rv l))
+  | ZStore inter g dst ks => run (zset_store inter g now dst ks) VI
+  | ZLen k => run (zset_len now k) VI
+  | ZRangeRank k a b desc => run (zset_range_rank now k a b desc) (fun l => VL (map item_rv l))
+  | ZRangeScore k lo hi desc off cnt =>
+      run (zset_range_score now k lo hi desc off cnt) (fun l => VL (map item_rv l))
+  | ZScan k c p n => run (zset_scan now k c p n) (fun r => VL [VI (fst r); VL (map item_rv (snd r))])
   end.
 
 (* the DB-level method: a transaction around the Tx-level call where the Go
